@@ -364,6 +364,44 @@ def make_inner_edit(kind, fo, twin=False):
     return 'inner_edit_%s_f%d%s' % (('value', 'rawtext', 'paren')[kind], fo, '_twin' if twin else ''), cell
 
 
+def make_eq_after_arith(twin=False):
+    """C20 on the results of arithmetic: an expression built by an operator equals its deep copy and the parse of its printed
+    text (both directions); a document whose number was adjusted in place equals its deep copy and its re-parse."""
+    import copy
+    ns = len(SHAPES)
+    rights = [2, D('1.5'), None]      # None: an expression operand
+
+    def cell(sa: int, ka: int, op: int, md: int, ri: int) -> None:
+        assert 0 <= sa < ns and 0 <= ka <= 3 and 0 <= op <= 3 and 0 <= md <= 2 and 0 <= ri <= 2
+        sa, ka, op, md, ri = pick(sa, 0, ns - 1), pick(ka, 0, 3), pick(op, 0, 3), pick(md, 0, 2), pick(ri, 0, 2)
+        with NoTracing():
+            a, fa = make_operand(ka, SHAPES[sa], '97')
+            b = rights[ri]
+            if b is None:
+                if md == 1:
+                    return
+                b = parse('3+5', models.NumberExpr)
+            try:
+                r = one_op(md, BIN[op], a, b)
+            except (decimal.DivisionByZero, decimal.InvalidOperation, ZeroDivisionError):
+                return
+            if twin:
+                raise Fail('twin reached the assertion point')
+            what = '%r %s %r (mode %d, attachment %d)' % (SHAPES[sa], BIN[op], rights[ri] if rights[ri] is not None else '3+5', md, ka)
+            c = copy.deepcopy(r)
+            check(r == c and c == r, what, 'the result does not equal its deep copy', R(text_of(r)))
+            again = docenv.PARSER.parse(text_of(r), models.NumberExpr)
+            check(r == again and again == r, what, 'the result does not equal the parse of its own text', R(text_of(r)))
+            check(not (r != c), what, '!= disagrees with ==')
+            if fa is not None and md == 2:
+                fc = copy.deepcopy(fa)
+                check(fa == fc and fc == fa, what, 'the document whose number was adjusted in place does not equal its deep copy')
+                fr = docenv.PARSER.parse(text_of(fa), models.File)
+                check(fa == fr and fr == fa, what, 'the document whose number was adjusted in place does not equal its re-parse', R(text_of(fa)))
+
+    return 'eq_after_arith%s' % ('_twin' if twin else ''), cell
+
+
 CELLS = {}
 
 
@@ -390,6 +428,8 @@ for _kind in range(3):
              '20 shapes x 4 attachments x %s x 4 new numbers, then %s; every value of every node read before and after the edit'
              % (('number token (<= 6).value = v', 'number token (<= 6).raw_text = s', 'content of a parenthesis replaced')[_kind],
                 'no further operation' if FOLLOW[_fo] is None else 'operator %r' % (FOLLOW[_fo],)), cost=100)
+_reg(make_eq_after_arith(), {'C20': Q, 'C11': Q}, 600, 'eq-after-arith', '20 shapes x 4 attachments x 4 operators x 3 modes x {int, Decimal, expression} right operand: result == deep copy == parse(print), symmetric; documents adjusted in place', cost=100)
+_reg(make_eq_after_arith(twin=True), {'C20': Q}, 120, 'eq-after-arith', 'vacuity twin', twin=True, cost=1)
 _reg(make_inner_edit(0, 0, twin=True), {'C13': Q}, 120, 'inner-edit', 'vacuity twin', twin=True, cost=1)
 _reg(make_binop(2, 0, twin=True), {'C13': Q}, 120, 'binop', 'vacuity twin', twin=True, cost=1)
 _reg(make_unary(twin=True), {'C13': Q}, 120, 'unary', 'vacuity twin', twin=True, cost=1)
